@@ -386,3 +386,14 @@ Proof.
   - assert (E2 : Nat.ltb (length cands) total = false) by (apply Nat.ltb_ge; lia). rewrite E2. cbn [negb andthen].
     apply res_kind_last, py_for_unit_kind. intros x _. cbv beta zeta. apply res_kind_last, GenTie_nominator.
 Qed.
+
+Print Assumptions GenTie_nominator.
+Print Assumptions GenTie_checker.
+Print Assumptions GenTie_checker_active.
+Print Assumptions GenTie_defaulted.
+Print Assumptions GenTie_simple.
+Print Assumptions GenTie_approval.
+Print Assumptions GenTie_ranked.
+Print Assumptions GenTie_score_base.
+Print Assumptions GenTie_enum.
+Print Assumptions GenTie_range.
